@@ -56,6 +56,28 @@ def check_int(n, res, d2l, l2d):
                           f'lbc_to_dewies(dewies_to_lbc({n})) = {back!r}', {'mode': 'int', 'n': n})
 
 
+def check_dict(n, res, dv2l):
+    """dict_values_to_lbc - the entry point the daemon's balance/response paths use: every int leaf, at any
+    nesting depth, must come out as the exact decimal string; other leaves are passed through."""
+    res.count('evaluations')
+    exp = ref_format(n)
+    src = {'a': n, 'nested': {'b': n, 'deeper': {'c': n}}, 'text': 'x', 'none': None, 'flag': True}
+    try:
+        got = dv2l(src)
+    except Exception as e:   # noqa
+        got = {'a': f'<{type(e).__name__}>'}
+    leaves = (got.get('a'), (got.get('nested') or {}).get('b'), ((got.get('nested') or {}).get('deeper') or {}).get('c'))
+    if any(leaf != exp for leaf in leaves):
+        res.violation({'kind': 'dict-format', 'sign': '-' if n < 0 else '+', 'digits': len(str(abs(n)))},
+                      f'dict_values_to_lbc formats the int leaf {n} as {leaves!r}, exact value is {exp!r}',
+                      {'mode': 'dict', 'n': n})
+    elif got.get('text') != 'x' or got.get('none') is not None:
+        res.violation({'kind': 'dict-passthrough'}, f'dict_values_to_lbc changed a non-int leaf: {got!r}',
+                      {'mode': 'dict', 'n': n})
+    if isinstance(got.get('flag'), str):
+        res.tally('interpretation_only:bool_leaf_formatted_as_amount')
+
+
 def check_str(s, res, l2d):
     res.count('evaluations')
     exp = ref_parse(s)
@@ -85,10 +107,15 @@ def work(item, res):
     kind = item[0]
     if kind == 'window':
         _, b, w = item
+        from lbry.wallet.dewies import dict_values_to_lbc as dv2l
         for n in range(b - w, min(b + w, LIMIT) + 1):
             check_int(n, res, d2l, l2d)
             if n > 0:
                 check_int(-n, res, d2l, l2d)
+            if abs(n - b) <= 64:        # the dict entry point: a dense core of every window, both signs
+                check_dict(n, res, dv2l)
+                if n > 0:
+                    check_dict(-n, res, dv2l)
         res.distinct_add('nontrivial', ('window', b))
     elif kind == 'frac_all':
         _, whole, lo, hi = item
@@ -168,7 +195,7 @@ def run(ctx):
     ctx.res.sample({'str_case': '00000000001.0', 'expected': 'reject (11 integer digits)'})
     ctx.res.sample({'str_case': '1.000000001', 'expected': 'reject (9 fractional digits)'})
     ctx.meta.update(
-        rule=('integers: every n in +-W windows around 0, 10^k (k<=17), 2^k (50<=k<=57), supply and 2.1e17, '
+        rule=('entry points dewies_to_lbc, lbc_to_dewies and dict_values_to_lbc (int leaves at three nesting depths, dense core of every window); integers: every n in +-W windows around 0, 10^k (k<=17), 2^k (50<=k<=57), supply and 2.1e17, '
               'and their negatives; w*10^8+f for 7 whole parts x (quick: every f = k*10^j+-1 grid; thorough: all '
               '10^8 fractional parts); strings: every string of length <= L over "019.-+eE ,_" plus a digit-count '
               'grid 0..12 x 0..10 with 12 decorations each. Non-trivial/distinct = distinct (window | whole part | '
@@ -188,6 +215,10 @@ def replay(data):
     if data['mode'] == 'int':
         check_int(int(data['n']), res, d2l, l2d)
         log = f"dewies_to_lbc({data['n']}) -> {d2l(int(data['n']))!r}; exact {ref_format(int(data['n']))!r}"
+    elif data['mode'] == 'dict':
+        from lbry.wallet.dewies import dict_values_to_lbc as dv2l
+        check_dict(int(data['n']), res, dv2l)
+        log = f"dict_values_to_lbc({{'a': {data['n']}}}) -> {dv2l({'a': int(data['n'])})!r}; exact {ref_format(int(data['n']))!r}"
     elif data['mode'] == 'str':
         check_str(data['s'], res, l2d)
         log = f"lbc_to_dewies({data['s']!r}); reference {ref_parse(data['s'])!r}"
